@@ -86,11 +86,16 @@ func NewAdapter(
 
 	for _, output := range adapter.Outputs {
 		if err := adapter.depDB.AddControllerOutput(adapter.Name, output); err != nil {
+			// the registration is rejected: it should leave nothing behind in the dependency database
+			adapter.depDB.DeleteController(adapter.Name)
+
 			return nil, fmt.Errorf("error registering in dependency database: %w", err)
 		}
 	}
 
 	if err := adapter.UpdateInputs(adapter.ctrl.Inputs()); err != nil {
+		adapter.depDB.DeleteController(adapter.Name)
+
 		return nil, fmt.Errorf("error registering initial inputs: %w", err)
 	}
 
